@@ -89,20 +89,23 @@ using g_int = typename SB::T_IntType;
 using g_long = typename SB::T_LongType;
 using g_short = typename SB::T_ShortType;
 using g_ptr = typename SB::T_PointerType;
-static long g_guest_calls[3][8];
+static long g_guest_calls[16][8];
 static g_int guest_call_cb_n(g_ptr cb, g_int v, g_int n)
 {
   auto* s = SB::current();
   g_guest_calls[s->index][0]++;
   auto f = (g_int(*)(g_int))s->rep_to_fn(cb);
   g_int sum = 0;
+  MBOX_YIELD("guest:call_cb_n");
   for (g_int i = 0; i < n; i++) sum += f(v + i);
+  MBOX_YIELD("guest:call_cb_n-after");
   return sum;
 }
 static g_int guest_lib_id()
 {
   auto* s = SB::current();
   g_guest_calls[s->index][1]++;
+  MBOX_YIELD("guest:lib_id");
   return (g_int)s->lib;
 }
 static g_long guest_add3(g_long a, g_int b, g_short c)
